@@ -69,7 +69,8 @@ def build(scratch):
          ]
     vs, vob, vend = ex.impl_range(CLOSED, r"impl BreadthFirstSearchSteelValVisitor for GlobalSlotRecycler")
     c.append("impl BreadthFirstSearchSteelValVisitor for GlobalSlotRecycler {\n    type Output = ();\n\n    "
-             + ex.fn(CLOSED, "visit_closure", within=(vob, vend)) + "\n\n    " + ex.fn(CLOSED, "push_back", within=(vob, vend))
+             + ex.fn(CLOSED, "visit_closure", within=(vob, vend)) + "\n\n    " + ex.fn(CLOSED, "push_back", within=(vob, vend)) + "\n\n    "
+             + "\n\n    ".join(ex.fn(CLOSED, a, within=(vob, vend)) for a in ["visit_hash_map", "visit_hash_set", "visit_immutable_vector", "visit_list", "visit_steel_struct", "visit_stream", "visit_pair", "visit_boxed_value"])
              + "\n\n    // reduced form of the real `visit`: the same loop, Closure arm only (prelude, trusted)\n"
              "    fn visit(&mut self) -> Self::Output {\n        while let Some(value) = self.queue.pop() {\n            if self.slots.is_empty() {\n                return;\n            }\n"
              "            if let SteelVal::Closure(c) = value {\n                self.visit_closure(c)\n            }\n        }\n    }\n}\n")
@@ -98,13 +99,13 @@ unexpected_cfgs = {{ level = "allow", check-cfg = ['cfg(kani)'] }}
     write(os.path.join(crate, "src/prelude.rs"), prelude)
     write(os.path.join(crate, "src/x_map.rs"), allow + "// imports mirror compiler/map.rs\nuse crate::prelude::throw;\nuse crate::prelude::{InternedString, Result, FxHashMap, HashSet};\n\n" + "\n\n".join(m) +
           "\n\n#[cfg(kani)]\n#[path = \"harness_map.rs\"]\nmod harness;\n")
-    write(os.path.join(crate, "src/x_closed.rs"), allow + "use crate::prelude::{BreadthFirstSearchSteelValVisitor, Gc, Heap, HashSet, OpCode, SteelVal, ByteCodeLambda};\nuse crate::x_map::SymbolMap;\n\n" + "\n\n".join(c) +
+    write(os.path.join(crate, "src/x_closed.rs"), allow + "use crate::prelude::{BreadthFirstSearchSteelValVisitor, Gc, GcMut, Heap, HashSet, OpCode, SteelVal, ByteCodeLambda, SteelHashMap, SteelHashSet, SteelVector, List, UserDefinedStruct, LazyStream};\nuse crate::x_map::SymbolMap;\n\n" + "\n\n".join(c) +
           "\n#[cfg(kani)]\n#[path = \"harness_closed.rs\"]\nmod harness;\n")
     write(os.path.join(crate, "src/x_instructions.rs"), allow + "use crate::prelude::OpCode;\n\n" + "\n\n".join(ins) + "\n")
     hm, hc = harness.split("// ====SPLIT====\n")
     write(os.path.join(crate, "src/harness_map.rs"), hm)
     write(os.path.join(crate, "src/harness_closed.rs"), hc.replace("/*GLOBAL_OPS*/", " | ".join("OpCode::" + o for o in GLOBAL_OPS)))
-    write(os.path.join(crate, "src/lib.rs"), "#![allow(dead_code, unused_imports, unused_macros)]\n#[macro_use]\npub mod prelude;\npub mod x_instructions;\npub mod x_map;\npub mod x_closed;\n")
+    write(os.path.join(crate, "src/lib.rs"), "#![allow(dead_code, unused_imports, unused_macros)]\n#[macro_use]\npub mod prelude;\npub mod x_instructions;\npub mod x_map;\npub mod lists { pub use crate::prelude::Pair; }\npub mod x_closed;\n")
     meta = {"unit": NAME, "engine": "E2: verbatim item extraction into a mini crate + Kani",
             "items": ex.items, "prelude": "units/glob/prelude.rs", "prelude_sha256": sha256(prelude), "harness_sha256": sha256(harness),
             "spec_cross_check": {"global_index_arms_found_in_vm_rs": found_ops, "spec_list": GLOBAL_OPS, "assumed_not_emitted": NOT_EMITTED},
@@ -132,6 +133,8 @@ OBS.update({
     "visit_closure_three_instructions": dict(kind="bounded", bound="3 instructions, first one possibly JIT-trampolined", functions=["GlobalSlotRecycler::visit_closure"],
                                              contract="same for every position of a 3-instruction body"),
     "recycle_resets_heap_marks": dict(kind="proof", functions=["GlobalSlotRecycler::recycle"], contract="both heap free lists are reset (mark_all_unreachable) before the walk and recounted after it"),
+    "recycler_container_arms_contract": dict(kind="bounded", bound="containers of 2 children (closures and leaves)", functions=["GlobalSlotRecycler::visit_hash_map", "visit_hash_set", "visit_immutable_vector", "visit_list", "visit_steel_struct", "visit_stream", "visit_pair", "visit_boxed_value"],
+                                             contract="a function that is reachable from a global only through a container is still found by the walk: every child (keys and values of maps, both halves of a pair - also an improper one -, fields, elements, boxed content, stream parts) is queued"),
     "push_back_contract": dict(kind="proof", functions=["GlobalSlotRecycler::push_back"], contract="closures are always queued; leaf values never"),
     **{n: dict(kind="bounded", tier="thorough", bound="one concrete global table of 3 slots", functions=["GlobalSlotRecycler::recycle", "GlobalSlotRecycler::visit_closure", "GlobalSlotRecycler::push_back"],
                contract="only shadowed slots are freed, each once, their root cleared; a slot that live code refers to is never freed")
